@@ -46,6 +46,16 @@ class FunctionResult:
         }
 
 
+def flatten_and(e):
+    """Conjuncts of a (nested) conjunction, in order."""
+    if z3.is_and(e):
+        out = []
+        for ch in e.children():
+            out.extend(flatten_and(ch))
+        return out
+    return [e]
+
+
 def make_target(world, qualname):
     """Build the FuncV (and the environment of captured variables) for a contract target."""
     mi, cls, chain = world.repo.lookup_function(qualname)
@@ -142,7 +152,7 @@ def verify_function(world, qualname, timeout_ms=20000, max_paths=3000, only_path
                               'post:%s:pure_result' % qualname, 'post')
                 for lbl, fn in c.ensures:
                     cl = run.tobool(run.eval_clause(c, fn, values))
-                    conj = cl.children() if z3.is_and(cl) else [cl]
+                    conj = flatten_and(cl)
                     for k, part in enumerate(conj):
                         run.prove(part, 'post:%s:%s%s' % (qualname, lbl, '#%d' % k if len(conj) > 1 else ''),
                                   'post')
